@@ -94,6 +94,18 @@ func extractLock(root string) (string, map[string]any, error) {
 	if ri == nil || norm(p.src(ri.Body)) != "{ if l.IsStale() { return l.Unlock(ctx) } return nil }" {
 		return "", nil, fmt.Errorf("ReleaseIfStale not recognised")
 	}
+	// Lock / LockWithTimeout only ever ACQUIRE: a contender that gives up removes nothing
+	lk := p.method("RemoteLockFile", "Lock")
+	lwt := p.method("RemoteLockFile", "LockWithTimeout")
+	if lk == nil || lwt == nil {
+		return "", nil, fmt.Errorf("Lock / LockWithTimeout not found")
+	}
+	lks := norm(p.src(lk.Body)) + " " + norm(p.src(lwt.Body))
+	for _, forbidden := range []string{"Unlock(", ".Rm(", ".Remove", "ReleaseIfStale(", "MakeStale("} {
+		if strings.Contains(lks, forbidden) {
+			return "", nil, fmt.Errorf("Lock / LockWithTimeout: a waiting contender calls %s…): %s", forbidden, lks)
+		}
+	}
 	lean := fmt.Sprintf("import GoUtils.Model.LockTime\nnamespace GoUtils.Generated.Lock\nopen GoUtils.LockTime\ndef ok : Bool := true\n"+
 		"def stale : StaleFacts := { periodMs := %s, factor := %s, strict := %s, sleepLessMs := %s, statErrorMeansFresh := true, emptyDirJudgedByDir := true }\n"+
 		"def proto : ProtoFacts := { tryPeriodMs := %s, mkdirIsTheAcquire := true, stampsDirAfterMkdir := %s, releaseIfStaleGuarded := true }\nend GoUtils.Generated.Lock\n",
